@@ -29,7 +29,7 @@ class C14(Prop):
             n = rng.randint(1, 5)
             pairs = [sc.gen_pair(rng, kind, h, lv) for _ in range(n)]
             yield {"stream": "scale", "kind": kind, "h": h, "level": lv, "c": rng.choice([0.125, 0.5, 2.0, 4.0, 32.0, 2.0**-30, 2.0**-40, 2.0**30]),
-                   "y": [p[0] for p in pairs], "z": [p[1] for p in pairs]}
+                   "y": [p[0] for p in pairs], "z": [p[1] for p in pairs], "inplace": rng.random() < 0.3}
         for k in range(N // 3):
             kind = rng.choice(["squared_error", "poisson", "gamma", "pinball"])
             lv = rng.choice(sc.LEVELS)
@@ -75,7 +75,23 @@ class C14(Prop):
             return base
         out = dict(base)
         st = case["stream"]
-        if st == "scale":
+        if st == "scale" and case.get("inplace") and not case.get("dtype"):
+            # the same score object and the same arrays, rescaled in place (y *= c; z *= c) between the two evaluations
+            import numpy as np
+            from .core import exc_class
+
+            c = case["c"]
+            try:
+                sf = sc.make_sf(k, h, lv)
+                ya, za = np.array(y, dtype=float), np.array(z, dtype=float)
+                first = [float(v) for v in np.asarray(sf.score_per_obs(ya, za), dtype=float)]
+                ya *= c
+                za *= c
+                out["scaled"] = [float(v) for v in np.asarray(sf.score_per_obs(ya, za), dtype=float)]
+                out["per_obs"] = first
+            except Exception as e:
+                return {"err": exc_class(e)}
+        elif st == "scale":
             c = case["c"]
             out["scaled"] = sc.call_score(k, h, lv, [c * v for v in y], [c * v for v in z]).get("per_obs")
         elif st == "named":
